@@ -122,8 +122,36 @@ Sanitize(c, uo) ==
   ELSE IF c.k = "par" THEN [k |-> "par", e |-> Sanitize(c.e, uo)]
   ELSE IF uo /\ IsTime(c) THEN Fgt(1)
   ELSE c
+\* chains: a left-deep sequence of 3..6 operands (atoms and small parenthesised groups) joined by AND / OR, the
+\* shape `a AND b AND c AND (d OR e)` of hand-written WHERE clauses; deeper than the balanced trees above, so that
+\* the pruning code's accumulation over long conjunctions (cross products of alternatives, shared buffers) is exercised
+EqAtoms == {a \in Atoms : a.k = "teq"}
+ChainAtom(x) == IF RandomElement(1..4) <= 3 /\ EqAtoms # {} THEN RandomElement(EqAtoms) ELSE RandomElement(Atoms)
+Operand(x) ==
+  IF RandomElement(1..3) = 1
+  THEN [k |-> "par", e |-> [k |-> RandomElement({"and", "or", "or"}), l |-> ChainAtom(x), r |-> ChainAtom(x + 1)]]
+  ELSE ChainAtom(x)
+RECURSIVE ChainFrom(_, _, _)
+ChainFrom(acc, m, x) ==
+  IF m = 0 THEN acc
+  ELSE ChainFrom([k |-> RandomElement({"and", "and", "and", "or"}), l |-> acc, r |-> Operand(x + m)], m - 1, x)
+RandChain(x) == ChainFrom(Operand(x), RandomElement(2..5), x)
+\* conjunctive normal forms over tag equalities: clause AND clause AND .., a clause being one equality or a
+\* parenthesised OR of 2..3 equalities (what TargetShards' cross product of alternatives is written for)
+Clause(x) ==
+  LET a == RandomElement(EqAtoms) b == RandomElement(EqAtoms) c == RandomElement(EqAtoms) sel == RandomElement(1..5)
+  IN IF sel <= 3 THEN a
+     ELSE IF sel = 4 THEN [k |-> "par", e |-> [k |-> "or", l |-> a, r |-> b]]
+     ELSE [k |-> "par", e |-> [k |-> "or", l |-> [k |-> "or", l |-> a, r |-> b], r |-> c]]
+RECURSIVE CNFFrom(_, _, _)
+CNFFrom(acc, m, x) == IF m = 0 THEN acc ELSE CNFFrom([k |-> "and", l |-> acc, r |-> Clause(x + m)], m - 1, x)
+RandCNF(x) == IF EqAtoms = {} THEN RandChain(x) ELSE CNFFrom(Clause(x), RandomElement(1..5), x)
 \* (one choice for the last step: in -simulate mode Export prints every generated successor)
-SimConds(x) == {Sanitize(TLCEval(RandTree(MaxLevel, x + j)), FALSE) : j \in 1..(IF x >= Depth - 1 THEN 1 ELSE 3)}
+SimConds(x) ==
+  IF x >= Depth - 1
+  THEN {Sanitize(TLCEval(IF x % 2 = 0 THEN RandTree(MaxLevel, x) ELSE RandChain(x)), FALSE)}
+  ELSE {Sanitize(TLCEval(RandTree(MaxLevel, x + 1)), FALSE), Sanitize(TLCEval(RandChain(x + 2)), FALSE),
+        Sanitize(TLCEval(RandCNF(x + 3)), FALSE), Sanitize(TLCEval(RandCNF(x + 4)), FALSE)}
 
 Export == (n = Depth) => PrintT(<<"TRACE", ToJson(hist)>>)
 =============================================================================
